@@ -410,6 +410,7 @@ def run_property(modname: str, tier: str, seed: int) -> int:
     # determinism: re-execute each violating case once (in this process)
     new_viol = []
     known_seen = []
+    unconfirmed = []
     if viol_by_key:
         if pool is not None:
             _worker_init(modname, worker_env)
@@ -430,16 +431,27 @@ def run_property(modname: str, tier: str, seed: int) -> int:
                 v["detail"] = str(v["detail"]) + " [observed once; did not recur on re-execution: timing dependent]"
                 confirmed = True
             if not confirmed:
-                print(f"HARNESS ERROR: violation {k} did not reproduce on re-execution (non-determinism); "
-                      f"re-execution gave {rekeys}")
-                print(json.dumps(jsonable(v), default=str)[:3000])
-                return 2
+                unconfirmed.append((k, v, rekeys))
+                continue
             match = [e for e in known if e["key"] == k]
             if match:
                 known_seen.append((match[0], v))
             else:
                 new_viol.append(v)
 
+    if unconfirmed:
+        # A violation that does not recur when its case is re-executed alone is never reported as a verdict.
+        # If nothing else was confirmed it is a harness error (exit 2).  If other violations of this run DID
+        # reproduce, the non-reproducing ones are dropped with a note: they are what a defect that depends on the
+        # history of the worker process looks like from a case that does not contain that history (the spaces that
+        # enumerate histories give it a reproducible witness).
+        for k, v, rekeys in unconfirmed[:5]:
+            print(f"NOT-REPRODUCED: violation {k} did not recur on re-execution of its case alone; re-execution gave "
+                  f"{rekeys}")
+        if not new_viol:
+            print("HARNESS ERROR: no violation of this run reproduced on re-execution (non-determinism)")
+            print(json.dumps(jsonable(unconfirmed[0][1]), default=str)[:3000])
+            return 2
     os.makedirs(os.path.join(OUT, "replays", pid), exist_ok=True)
     for e, v in known_seen:
         print(f"KNOWN-FINDING: property={pid} {e['what']} [key={e['key']}]")
@@ -472,6 +484,7 @@ def run_property(modname: str, tier: str, seed: int) -> int:
         "violation_records": viol_count,
         "distinct_violation_keys": len(viol_by_key),
         "known_findings_seen": [e["key"] for e, _ in known_seen],
+        "violations_not_reproduced_in_isolation": len(unconfirmed),
         "workers": nworkers,
         "tree": tree_hash(),
     }
